@@ -3,7 +3,7 @@ SIM = ("Trusted base: the simulated pika broker and the time model of DESIGN.md 
        "RabbitMQ offline); virtual clock/uuid seams; CPython. Bounds: the scenario corpus named in the evidence file.")
 ENGINES = [
     {"name": "explorer", "path": "harness/explorer.py", "kind_free_text": "stateless DFS explicit-state model checker over the real engine on a simulated broker (replay + fingerprint dedup + deviation bound)",
-     "serves_properties": ["C02", "C03", "C04", "C05", "C10", "C06", "C08", "C09", "C11"]},
+     "serves_properties": ["C02", "C03", "C04", "C05", "C10", "C15", "C06", "C08", "C09", "C11"]},
     {"name": "enumerator", "path": "checks/common.py", "kind_free_text": "exhaustive small-scope enumeration of inputs/programs from a stated finite alphabet, each evaluated on the real code and on a reference model under /verif/ref",
      "serves_properties": ["C01", "C07", "C08", "C12", "C13", "C14", "C16", "C17"]},
 ]
@@ -117,5 +117,9 @@ CHECKS["C13"] = {
     "note": ENUM + " Results the definitions leave open (rendering of non-string non-integer Format arguments, surplus Format arguments, empty StringSplit fields, negative ArrayRange increments, random numbers) are not judged.",
     "technique": "exhaustive grammar-based enumeration of expressions against a reference evaluator (bounded model checking, explicit enumeration)",
 }
+CHECKS["C15"] = _mc("All interleavings (closed) of parent/child scenarios: async launch, .sync / .sync:2 / aws-sdk startSyncExecution with a child that succeeds, fails (caught and uncaught), EXPRESS and STANDARD children, "
+    "invalid combinations, parent time-out while the child is blocked in a Wait / Task, parent inside Parallel (incl. a failing sibling) and Map; task-token callback streams through the real SendTaskSuccess / "
+    "SendTaskFailure handlers (valid, duplicate, success-then-failure, forged, truncated, not base64, never, late, ordinary RPC reply before the callback, RPC error reply). M-child checks completion only once the child "
+    "is terminal, documented field names and Output typing, States.TaskFailed with the child's error, token results / API answers, cancellation of what the child is blocked on; M-life / M-carry / M-drain ride along.")
 NA = {}
 NOTES = "All checks run the real code of /repo's working tree (imported by path) over /verif/sim; see DESIGN.md."
